@@ -133,6 +133,8 @@ br_rsa_oaep_unpad(const br_hash_class *dig,
 	 * At that point, padding was verified, and we are now allowed
 	 * to make conditional jumps.
 	 */
+	BR_VERIF_PUBLIC(&s, sizeof s);
+	BR_VERIF_PUBLIC(&zlen, sizeof zlen);
 	if (s) {
 		size_t plen;
 
